@@ -64,7 +64,14 @@ fn wop() -> impl Strategy<Value = W> + Clone {
 }
 
 fn op() -> impl Strategy<Value = Op> {
-    let ws = prop::collection::vec(wop(), 1..9);
+    // units: one write, or a label *replaced* on one node inside the transaction (the label
+    // set keeps its size while its content changes)
+    let unit = prop_oneof![
+        12 => wop().prop_map(|w| vec![w]),
+        1 => (any::<u16>(), 0u8..3, 1u8..3).prop_map(|(n, from, d)| vec![W::RemoveLabel { n, l: from }, W::AddLabel { n, l: (from + d) % 3 }]),
+        1 => (any::<u16>(), 0u8..3, 1u8..3).prop_map(|(n, from, d)| vec![W::AddLabel { n, l: (from + d) % 3 }, W::RemoveLabel { n, l: from }]),
+    ];
+    let ws = prop::collection::vec(unit, 1..9).prop_map(|v| v.concat());
     prop_oneof![
         14 => ws.clone().prop_map(|ws| Op::Tx { ws, commit: true }),
         1 => ws.prop_map(|ws| Op::Tx { ws, commit: false }),
